@@ -593,6 +593,165 @@ def ctorParams (fields : List Node) : List (String × String) :=
         if a.any (fun q => q.1 == name) then a.map (fun q => if q.1 == name then (name, tn) else q) else a ++ [(name, tn)]
     | _ => a) []
 
+/-- the first type argument of an array type (what `visit_array_expr` prints) -/
+def arrayElem : Ty → Option Ty
+  | .param _ _ (a :: _) _ => some a
+  | _ => none
+
+/-- `visit_array_expr`, `length == 0`: the text before `[0]` -/
+def emptyArrayNew (t : Ty) : String :=
+  match arrayElem t with
+  | some a => if a.isParam then "(" ++ typeName a false false ++ "[]) new Object" else "new " ++ typeName a false false
+  | none => err "AttributeError"
+
+/-- `visit_array_expr`, `length != 0`: the text before the braces -/
+def arrayNew (t : Ty) : String :=
+  match t, arrayElem t with
+  | .param .., some a => if !isPrimitive a then "(" ++ typeName t false false ++ ") new Object[]" else "new " ++ typeName t false false
+  | .param .., none => err "IndexError"
+  | _, _ => "new " ++ typeName t false false
+
+/-- `visit_func_call`: the function declaration the name resolves to (`get_decl` + `isinstance`) -/
+def calledDecl (e : Env) (ns : List String) (func : String) : Option (List String × Node) :=
+  match getDecl e ns func with
+  | some (dns, d) => if isFuncDecl d then some (dns, d) else none
+  | none => none
+
+/-- `visit_func_call`: is the callee a nested function (printed as a `FunctionN` variable)? -/
+def calledNested (fdecl : Option (List String × Node)) : Bool :=
+  match fdecl with
+  | some (dns, _) =>
+      let lastNs := dns.getLast?.getD ""
+      lastNs != "global" && (match lastNs.toList.head? with | some c => c.isLower | none => false)
+  | none => false
+
+/-- the array a vararg tail is wrapped into (`visit_func_call` on a nested function) -/
+def varargArrayNew (pt : Ty) : String :=
+  let a0prim := match pt with | .param _ _ (a :: _) _ => isPrimitive a | _ => false
+  if !a0prim then "(" ++ typeName pt false false ++ ") new Object[]" else "new " ++ typeName pt false false
+
+/-- `visit_func_call`: the vararg tail of a nested function's call is wrapped into an array -/
+def callArgs (fdecl : Option (List String × Node)) (nested : Bool) (rs : List Text) : List Text :=
+  match fdecl with
+  | some (_, d) =>
+    (match (funcParams d).getLast? with
+     | some (.paramDecl _ pt true _) =>
+        if nested then
+          let k := (funcParams d).length - 1
+          rs.take k ++ [varargArrayNew pt ++ "{" ++ join ", " (rs.drop k) ++ "}"]
+        else rs
+     | _ => rs)
+  | none => rs
+
+/-- `get_superclasses_interfaces`: per superclass its printed type and whether the class it names is an
+    interface (`none`: the name is not among the classes, a `KeyError`) -/
+def classifySupers (e : Env) (ns : List String) (supers : List Node) : List (String × Option Bool) :=
+  let glob := classesGlob e ns
+  supers.filterMap fun s => match s with
+    | .superInst t _ =>
+        let isIface := match (dictGet glob (tyName t)).join with
+          | some (.classDecl _ ct _ _ _ _ _) => some (ct == 1)
+          | _ => none
+        some (typeName t false false, isIface)
+    | _ => none
+
+/-- `construct_constructor`; `superArgs` is the text of the arguments of `super(...)` -/
+def ctorText (ident : Nat) (name : String) (fields supers : List Node) (superArgs : Text) : Text :=
+  let params := join "," ((ctorParams fields).map fun p => p.2 ++ " " ++ p.1)
+  let fs := fields.map fun fd => "this." ++ declName fd ++ " = " ++ declName fd ++ ";"
+  let cfields := (if !fs.isEmpty then "\n" ++ sp (ident + 2) else "") ++ join ("\n" ++ sp (ident + 2)) fs
+  let superCall :=
+    match supers.head? with
+    | some (.superInst t _) =>
+      if !(Ty.isBuiltin t) then "\n" ++ sp (ident + 2) ++ "super(" ++ superArgs ++ ");" else ""
+    | _ => ""
+  sp ident ++ "public " ++ name ++ "(" ++ params ++ ") {" ++ superCall ++ cfields ++ "\n" ++
+    (if !fs.isEmpty then sp ident else "") ++ "}"
+
+/-- the text `visit_class_decl` assembles (`old`: the indentation of the header, `ident`: of the members) -/
+def classText (old ident : Nat) (name : String) (ctype : Nat) (isFinal : Bool) (tparams : List Ty)
+    (classify : List (String × Option Bool)) (ctor : Text) (fieldRes funcRes : List Text) : Text :=
+  let tpr := join ", " (tparams.map typeParamStr)
+  let pre := sp old ++ (if isFinal then "final " else "")
+  let clsPrefix := if ctype == 0 then "class" else if ctype == 1 then "interface" else "abstract class"
+  let res := pre ++ clsPrefix ++ " " ++ name
+  let res := if tpr != "" then res ++ "<" ++ tpr ++ ">" else res
+  let keyErr := classify.any fun p => p.2.isNone
+  let superclasses := (classify.filter fun p => p.2 != some true).map (·.1)
+  let interfaces := (classify.filter fun p => p.2 == some true).map (·.1)
+  let res := if !superclasses.isEmpty then res ++ " extends " ++ join ", " superclasses else res
+  let res := if !interfaces.isEmpty then
+      res ++ (if ctype == 1 then " extends " else " implements ") ++ join ", " interfaces
+    else res
+  let body :=
+    if !funcRes.isEmpty || !fieldRes.isEmpty || !superclasses.isEmpty then
+      let b := " {\n"
+      let b := if !fieldRes.isEmpty then b ++ sp ident ++ join ("\n" ++ sp ident) fieldRes ++ "\n\n" else b
+      let b := if !superclasses.isEmpty || !fieldRes.isEmpty then
+          b ++ ctor ++ (if !funcRes.isEmpty then "\n\n" else "")
+        else b
+      let b := if !funcRes.isEmpty then b ++ join "\n\n" funcRes else b
+      b ++ "\n" ++ sp (ident - 4) ++ "}"
+    else " {}"
+  if keyErr then err "KeyError" else res ++ body
+
+/-- the body text of `visit_func_decl` (`closing`: the indentation before the closing brace) -/
+def funcBodyText (bodyRes : Text) (isExpr nonVoid : Bool) (closing : String) : Text :=
+  if bodyRes != "" then
+    if isExpr then
+      let br := if nonVoid then addStringAt bodyRes "return " (leadingSpaces bodyRes) else bodyRes
+      "{\n" ++ br ++ ";\n" ++ closing ++ "}"
+    else bodyRes
+  else ""
+
+/-- a nested function: `FunctionN<types> name = (params) -> body;` -/
+def nestedFuncText (idt name : String) (inferred : Option Ty) (paramRes : List Text) (bodyT : Text) : Text :=
+  let types := (paramRes.map fun x => replaceDots (rsplit1 x)) ++ [typeNameO inferred true false]
+  let types := types.map boxedOf
+  let ps := paramRes.map lastWord
+  idt ++ "Function" ++ toString ps.length ++ "<" ++ join ", " types ++ "> " ++ name ++
+    " = (" ++ join ", " ps ++ ") -> " ++ bodyT ++ ";"
+
+/-- a method of a class (or of `Main`) -/
+def methodText (idt name : String) (isFinal : Bool) (tparams : List Ty) (inferred : Option Ty)
+    (paramRes : List Text) (bodyT : Text) : Text :=
+  let tpr := join ", " (tparams.map typeParamStr)
+  idt ++ "public " ++ (if isFinal then "final " else "") ++
+    (if bodyT == "" then "abstract " else "") ++ (if tpr != "" then "<" ++ tpr ++ "> " else "") ++
+    typeNameO inferred false false ++ " " ++ name ++ "(" ++ join ", " paramRes ++ ") " ++ bodyT ++
+    (if bodyT == "" then ";" else "")
+
+/-- `visit_func_decl` / `visit_lambda` up to the visit of the parameters: namespace pushed,
+    `_inside_is_function`, indentation (+2, and +2 more for a member of `Main`),
+    `is_func_non_void_block`; answers the state and `old_ident` -/
+def funcEnter (st : St) (name : String) (nonVoid : Bool) : St × Nat :=
+  let st := { st with ns := st.ns ++ [name] }
+  let st := if st.insideIs then { st with insideIsFunction := true } else st
+  let atGlobal := nsParentName st.ns == "global"
+  let old := if atGlobal then st.ident + 2 else st.ident
+  let st := if atGlobal then { st with ident := st.ident + 2 } else st
+  let st := { st with ident := st.ident + 2 }
+  ({ st with isFuncNonVoidBlock := nonVoid }, old)
+
+/-- the end of `visit_func_decl` / `visit_lambda`: the attributes saved on entry (in `st0`) are
+    restored (`nfb`: `is_nested_func_block`, which only `visit_func_decl` saves) -/
+def funcLeave (st0 : St) (name : String) (old : Nat) (nfb : Option Bool) (s : St) : St :=
+  let atGlobal := nsParentName (st0.ns ++ [name]) == "global"
+  let old := if atGlobal then old - 2 else old
+  let s4 := { s with ident := old, isFuncNonVoidBlock := st0.isFuncNonVoidBlock,
+                     isNestedFuncBlock := nfb.getD s.isNestedFuncBlock, castNumber := st0.castNumber }
+  let s5 := if s4.insideIs then { s4 with insideIsFunction := st0.insideIsFunction } else s4
+  { s5 with ns := st0.ns }
+
+/-- the body text of `visit_lambda` (`sm`: the semicolon of a lambda that is a block statement) -/
+def lambdaBodyText (bodyRes : Text) (isExpr nonVoid : Bool) (sm : String) : Text :=
+  if bodyRes != "" then
+    if isExpr then
+      let br := if nonVoid then addStringAt bodyRes "return " (leadingSpaces bodyRes) else bodyRes
+      "{" ++ br ++ ";}" ++ sm
+    else bodyRes
+  else ""
+
 /-! ## the visitor -/
 
 /-- the body of the decorated visit methods (dispatch of `ASTVisitor.visit`), with the
@@ -631,58 +790,16 @@ def visitNode (e : Env) (v : St → Node → St × Text) (st : St) (n : Node) : 
     let (s1, fieldRes) := visitL v { st with ident := st.ident + 2 } fields
     let (s2, _superRes) := visitL v s1 supers
     let (s3, funcRes) := visitL v s2 funcs
-    let tpr := join ", " (tparams.map typeParamStr)
-    let pre := sp old ++ (if isFinal then "final " else "")
-    let clsPrefix := if ctype == 0 then "class" else if ctype == 1 then "interface" else "abstract class"
-    let res := pre ++ clsPrefix ++ " " ++ name
-    let res := if tpr != "" then res ++ "<" ++ tpr ++ ">" else res
-    -- get_superclasses_interfaces
-    let glob := classesGlob e s3.ns
-    let classify := supers.filterMap fun s => match s with
-      | .superInst t _ =>
-          let isIface := match (dictGet glob (tyName t)).join with
-            | some (.classDecl _ ct _ _ _ _ _) => some (ct == 1)
-            | _ => none
-          some (typeName t false false, isIface)
-      | _ => none
-    let keyErr := classify.any fun p => p.2.isNone
-    let superclasses := (classify.filter fun p => p.2 != some true).map (·.1)
-    let interfaces := (classify.filter fun p => p.2 == some true).map (·.1)
-    let res := if !superclasses.isEmpty then res ++ " extends " ++ join ", " superclasses else res
-    let res := if !interfaces.isEmpty then
-        res ++ (if ctype == 1 then " extends " else " implements ") ++ join ", " interfaces
-      else res
-    -- construct_constructor
-    let ctor : Text :=
-      let params := join "," ((ctorParams fields).map fun p => p.2 ++ " " ++ p.1)
-      let fs := fields.map fun fd => "this." ++ declName fd ++ " = " ++ declName fd ++ ";"
-      let cfields := (if !fs.isEmpty then "\n" ++ sp (s3.ident + 2) else "") ++ join ("\n" ++ sp (s3.ident + 2)) fs
-      let superCall :=
-        match supers.head? with
-        | some (.superInst t args) =>
-          if !(Ty.isBuiltin t) then
-            let r := match args with
-              | some (a :: as) =>
-                  -- a fresh JavaTranslator: context, _cast_number = True, _namespace
-                  let tr : St := { St.init with castNumber := true, ns := s3.ns }
-                  collapseWs (join ", " (visitL v tr (a :: as)).2)
-              | _ => ""
-            "\n" ++ sp (s3.ident + 2) ++ "super(" ++ r ++ ");"
-          else ""
-        | _ => ""
-      sp s3.ident ++ "public " ++ name ++ "(" ++ params ++ ") {" ++ superCall ++ cfields ++ "\n" ++
-        (if !fs.isEmpty then sp s3.ident else "") ++ "}"
-    let body :=
-      if !funcRes.isEmpty || !fieldRes.isEmpty || !superclasses.isEmpty then
-        let b := " {\n"
-        let b := if !fieldRes.isEmpty then b ++ sp s3.ident ++ join ("\n" ++ sp s3.ident) fieldRes ++ "\n\n" else b
-        let b := if !superclasses.isEmpty || !fieldRes.isEmpty then
-            b ++ ctor ++ (if !funcRes.isEmpty then "\n\n" else "")
-          else b
-        let b := if !funcRes.isEmpty then b ++ join "\n\n" funcRes else b
-        b ++ "\n" ++ sp (s3.ident - 4) ++ "}"
-      else " {}"
-    let res := if keyErr then err "KeyError" else res ++ body
+    -- construct_constructor: the arguments of `super(...)` are printed by a fresh JavaTranslator
+    -- (context, _cast_number = True, _namespace); the text is used only for a non-builtin superclass
+    let superArgs : Text :=
+      match supers.head? with
+      | some (.superInst _ (some (a :: as))) =>
+          let tr : St := { St.init with castNumber := true, ns := s3.ns }
+          collapseWs (join ", " (visitL v tr (a :: as)).2)
+      | _ => ""
+    let res := classText old s3.ident name ctype isFinal tparams (classifySupers e s3.ns supers)
+      (ctorText s3.ident name fields supers superArgs) fieldRes funcRes
     ({ s3 with ident := old, ns := initialNs }, res)
   | .varDecl name expr isFinal _ inferred =>
     let prev := st.castNumber
@@ -699,79 +816,31 @@ def visitNode (e : Env) (v : St → Node → St × Text) (st : St) (n : Node) : 
       | _, _ => t
     (st, typeName pt false false ++ (if vararg then "..." else "") ++ " " ++ name)
   | .funcDecl name params _ inferred body isFinal _ tparams _ =>
-    let initialNs := st.ns
-    let st := { st with ns := st.ns ++ [name] }
-    let prevIIF := st.insideIsFunction
-    let st := if st.insideIs then { st with insideIsFunction := true } else st
-    let atGlobal := nsParentName st.ns == "global"
-    let old := if atGlobal then st.ident + 2 else st.ident
-    let st := if atGlobal then { st with ident := st.ident + 2 } else st
-    let st := { st with ident := st.ident + 2 }
-    let prevCast := st.castNumber
-    let fnv := st.isFuncNonVoidBlock
-    let st := { st with isFuncNonVoidBlock := notVoid inferred }
-    let nfb := st.isNestedFuncBlock
-    let nested := isNestedFuncDecl e st.ns
-    let st := { st with isNestedFuncBlock := nested }
+    let (st1, old) := funcEnter st name (notVoid inferred)
+    let nested := isNestedFuncDecl e st1.ns
+    let st1 := { st1 with isNestedFuncBlock := nested }
     let isExpr := match body with | some b => !isBlock b | none => true
-    let st := if isExpr then { st with castNumber := true } else st
-    let (s1, paramRes) := visitL v st params
-    let tpr := join ", " (tparams.map typeParamStr)
+    let st1 := if isExpr then { st1 with castNumber := true } else st1
+    let (s1, paramRes) := visitL v st1 params
     let (s2, bodyRes) := match body with
       | some b => v s1 b
       | none => (s1, "")
-    let bodyT :=
-      if bodyRes != "" then
-        if isExpr then
-          let br := if notVoid inferred then addStringAt bodyRes "return " (leadingSpaces bodyRes) else bodyRes
-          "{\n" ++ br ++ ";\n" ++ identOld s2 old ++ "}"
-        else bodyRes
-      else ""
+    let bodyT := funcBodyText bodyRes isExpr (notVoid inferred) (identOld s2 old)
     let (s3, res) :=
       if isNestedFuncDecl e s2.ns then
-        let types := (paramRes.map fun x => replaceDots (rsplit1 x)) ++ [typeNameO inferred true false]
-        let types := types.map boxedOf
-        let ps := paramRes.map lastWord
-        let s3 := { s2 with functionInterfaces := setAdd s2.functionInterfaces ps.length }
-        (s3, identOld s3 old ++ "Function" ++ toString ps.length ++ "<" ++ join ", " types ++ "> " ++ name ++
-          " = (" ++ join ", " ps ++ ") -> " ++ bodyT ++ ";")
+        let s3 := { s2 with functionInterfaces := setAdd s2.functionInterfaces (paramRes.map lastWord).length }
+        (s3, nestedFuncText (identOld s3 old) name inferred paramRes bodyT)
       else
-        (s2, identOld s2 old ++ "public " ++ (if isFinal then "final " else "") ++
-          (if bodyT == "" then "abstract " else "") ++ (if tpr != "" then "<" ++ tpr ++ "> " else "") ++
-          typeNameO inferred false false ++ " " ++ name ++ "(" ++ join ", " paramRes ++ ") " ++ bodyT ++
-          (if bodyT == "" then ";" else ""))
-    let old := if atGlobal then old - 2 else old
-    let s4 := { s3 with ident := old, isFuncNonVoidBlock := fnv, isNestedFuncBlock := nfb, castNumber := prevCast }
-    let s5 := if s4.insideIs then { s4 with insideIsFunction := prevIIF } else s4
-    ({ s5 with ns := initialNs }, res)
+        (s2, methodText (identOld s2 old) name isFinal tparams inferred paramRes bodyT)
+    (funcLeave st name old (some st.isNestedFuncBlock) s3, res)
   | .lambda name params ret body _ =>
-    let initialNs := st.ns
-    let st := { st with ns := st.ns ++ [name] }
-    let prevIIF := st.insideIsFunction
-    let st := if st.insideIs then { st with insideIsFunction := true } else st
-    let atGlobal := nsParentName st.ns == "global"
-    let old := if atGlobal then st.ident + 2 else st.ident
-    let st := if atGlobal then { st with ident := st.ident + 2 } else st
-    let st := { st with ident := st.ident + 2 }
-    let prevCast := st.castNumber
-    let fnv := st.isFuncNonVoidBlock
-    let st := { st with isFuncNonVoidBlock := notVoid ret }
+    let (st1, old) := funcEnter st name (notVoid ret)
     let isExpr := !isBlock body
-    let st := if isExpr then { st with castNumber := true } else st
-    let (s1, paramRes) := visitL v st params
+    let st1 := if isExpr then { st1 with castNumber := true } else st1
+    let (s1, paramRes) := visitL v st1 params
     let (s2, bodyRes) := v s1 body
-    let bodyT :=
-      if bodyRes != "" then
-        if isExpr then
-          let br := if notVoid ret then addStringAt bodyRes "return " (leadingSpaces bodyRes) else bodyRes
-          "{" ++ br ++ ";}" ++ semi s2
-        else bodyRes
-      else ""
-    let res := "(" ++ join ", " paramRes ++ ") -> " ++ bodyT
-    let old := if atGlobal then old - 2 else old
-    let s3 := { s2 with ident := old, isFuncNonVoidBlock := fnv, castNumber := prevCast }
-    let s4 := if s3.insideIs then { s3 with insideIsFunction := prevIIF } else s3
-    ({ s4 with ns := initialNs }, res)
+    let res := "(" ++ join ", " paramRes ++ ") -> " ++ lambdaBodyText bodyRes isExpr (notVoid ret) (semi s2)
+    (funcLeave st name old none s2, res)
   | .intC lit t =>
     if !st.castNumber then (st, sp st.ident ++ lit ++ semi st)
     else (st, sp st.ident ++ intCast t lit ++ semi st)
@@ -782,22 +851,14 @@ def visitNode (e : Env) (v : St → Node → St × Text) (st : St) (n : Node) : 
   | .stringC lit => (st, sp st.ident ++ "\"" ++ lit ++ "\"" ++ semi st)
   | .boolC lit => (st, sp st.ident ++ lit ++ semi st)
   | .arrayE t len exprs =>
-    let a0 : Option Ty := match t with | .param _ _ (a :: _) _ => some a | _ => none
     if len == 0 then
-      let nw := match a0 with
-        | some a => if a.isParam then "(" ++ typeName a false false ++ "[]) new Object" else "new " ++ typeName a false false
-        | none => err "AttributeError"
-      (st, sp st.ident ++ nw ++ "[0]" ++ semi st)
+      (st, sp st.ident ++ emptyArrayNew t ++ "[0]" ++ semi st)
     else
       let old := st.ident
       let prevCast := st.castNumber
       let (s1, rs) := visitL v { st with castNumber := true, ident := 0 } exprs
-      let nw := match t, a0 with
-        | .param .., some a => if !isPrimitive a then "(" ++ typeName t false false ++ ") new Object[]" else "new " ++ typeName t false false
-        | .param .., none => err "IndexError"
-        | _, _ => "new " ++ typeName t false false
       let s2 := { s1 with castNumber := prevCast, ident := old }
-      (s2, sp s2.ident ++ nw ++ "{" ++ join ", " rs ++ "}" ++ semi s2)
+      (s2, sp s2.ident ++ arrayNew t ++ "{" ++ join ", " rs ++ "}" ++ semi s2)
   | .variable name =>
     (st, sp st.ident ++ mainPrefix e st "vars" name ++ name ++ rep "_is" (isCount st name) ++ semi st)
   | .binop _ l r op =>
@@ -882,28 +943,10 @@ def visitNode (e : Env) (v : St → Node → St × Text) (st : St) (n : Node) : 
     let (s1, rr) := visitL v { st with ident := 0, castNumber := true } (optList receiver)
     let (s2, rs) := visitL v s1 args
     let s3 := { s2 with ident := old }
-    let fdecl := match getDecl e s3.ns func with
-      | some (dns, d) => if isFuncDecl d then some (dns, d) else none
-      | none => none
-    let nested := match fdecl with
-      | some (dns, _) =>
-          let lastNs := dns.getLast?.getD ""
-          lastNs != "global" && (match lastNs.toList.head? with | some c => c.isLower | none => false)
-      | none => false
+    let fdecl := calledDecl e s3.ns func
+    let nested := calledNested fdecl
     let fname := mainPrefix e s3 "funcs" func ++ func
-    let args' :=
-      match fdecl with
-      | some (_, d) =>
-        (match (funcParams d).getLast? with
-         | some (.paramDecl _ pt true _) =>
-            if nested then
-              let k := (funcParams d).length - 1
-              let a0prim := match pt with | .param _ _ (a :: _) _ => isPrimitive a | _ => false
-              let nw := if !a0prim then "(" ++ typeName pt false false ++ ") new Object[]" else "new " ++ typeName pt false false
-              rs.take k ++ [nw ++ "{" ++ join ", " (rs.drop k) ++ "}"]
-            else rs
-         | _ => rs)
-      | none => rs
+    let args' := callArgs fdecl nested rs
     let recvExpr := match receiver, rr with
       | some rcv, r :: _ => if r != "" then (if isBottomC rcv then "(" ++ r ++ ")." else r ++ ".") else ""
       | _, _ => ""
